@@ -135,7 +135,7 @@ impl Property for C03 {
         "C03"
     }
     fn rule(&self) -> String {
-        "case = generated F-horn program (fact-rich, also recursive impls giving infinitely many answers) with 3 goals having 1-2 existential variables and a callback policy (take all up to 40 / stop after k); the stream [(answer_i, has_next_i)] of Solver::solve_multiple (SLG at max_size 10, 5, 4 or 3 — small limits make truncation-induced ambiguous answers frequent) is recorded. Oracle: no yielded Definite answer covers a non-solution of the reference model (sound); no two yielded answers are equal canonical values (no duplicate); if the enumeration ended by itself with only Definite answers, every reference solution in the bounded universe is an instance of a yielded answer (complete); has_next=false is followed by no further callback and `true` return, has_next=true is followed by another callback when we continue (flag). Non-trivial = stream with >=2 answers or a stop-after-k policy with k < #answers; distinct by hash of (program, goal, policy).".into()
+        "case = generated F-horn program (fact-rich, also recursive impls giving infinitely many answers) with 3 goals having 1-2 existential variables and a callback policy (take all up to 40 / stop after k); the stream [(answer_i, has_next_i)] of Solver::solve_multiple (SLG at max_size 10, 5, 4 or 3 — small limits make truncation-induced ambiguous answers frequent) is recorded. Oracle: no yielded Definite answer covers a non-solution of the reference model (sound); no two yielded answers are equal canonical values (no duplicate); if the enumeration ended by itself with only Definite answers, every reference solution in the bounded universe is an instance of a yielded answer (complete); has_next=false is followed by no further callback and `true` return, has_next=true is followed by another callback when we continue (flag). Each goal is then enumerated a second time on the same solver with the same policy: the stream and the return value must be identical (answers read back from the tables). Non-trivial = stream with >=2 answers or a stop-after-k policy with k < #answers; distinct by hash of (program, goal, policy).".into()
     }
     fn assumptions(&self) -> Vec<String> {
         vec!["reference semantics as in C01; the harness stops at the first Floundered item (a floundered table repeats it by construction)".into(), "completeness is only judged inside the bounded Herbrand universe (depth 2)".into()]
@@ -213,8 +213,8 @@ impl Property for C03 {
                 let mut items: Vec<(&'static str, Option<(Vec<Ty>, Vec<usize>)>, bool, String)> = vec![];
                 out.evals += 1;
                 let mut stopped_by_us = false;
+                let mut solver = chalk_integration::SolverChoice::SLG { max_size: case.slg_max, expected_answers: None }.into_solver();
                 let (run, work) = guarded(DEFAULT_BUDGET * 4, || {
-                    let mut solver = chalk_integration::SolverChoice::SLG { max_size: case.slg_max, expected_answers: None }.into_solver();
                     let mut n = 0;
                     solver.solve_multiple(&*low.program, &lg.peeled.goal, &mut |res, has_next| {
                         n += 1;
@@ -247,6 +247,36 @@ impl Property for C03 {
                         continue;
                     }
                 };
+                // the same goal enumerated again on the same solver (answers now come from the tables) must give the same
+                // stream: no answer may appear, disappear or double because it is read back instead of computed. (Not after a
+                // Floundered item: a floundered table answers `Floundered` from then on, by design.)
+                // Judged for enumerations that ran to their end: after an early stop the look-ahead may already have floundered
+                // the table.
+                if finished && !stopped_by_us && !items.iter().any(|i| i.0 == "Floundered") {
+                    let mut items2: Vec<(String, bool)> = vec![];
+                    let mut n2 = 0;
+                    let (run2, _) = guarded(DEFAULT_BUDGET * 4, || {
+                        solver.solve_multiple(&*low.program, &lg.peeled.goal, &mut |res, has_next| {
+                            n2 += 1;
+                            let floundered = matches!(res, SubstitutionResult::Floundered);
+                            items2.push((format!("{}", res.as_ref().map(|v| v.display(ChalkIr))), has_next));
+                            !((floundered && has_next) || n2 >= limit)
+                        })
+                    });
+                    let first: Vec<(String, bool)> = items.iter().map(|i| (i.3.clone(), i.2)).collect();
+                    match run2 {
+                        Run::Done(f2) => {
+                            if items2 != first || f2 != finished {
+                                let co = if crate::refsem::solution_sets(&case.pg.program, g, 2, 30).st.co_cycle || program_has_co_cycle(&case.pg.program) { ":coinductive-cycle" } else { "" };
+                                out.fail(format!("re-enumeration-differs{}", co), format!("the second enumeration of the goal on the same solver differs from the first\n{}goal: {}\nfirst:  {:?} returned {}\nsecond: {:?} returned {}", low.text, lg.text, first, finished, items2, f2));
+                            } else {
+                                out.bump("re_enumeration_identical");
+                            }
+                        }
+                        Run::Panic(m) => out.fail(format!("slg:panic-on-re-enumeration:{}", m), format!("the second solve_multiple on the same solver panicked: {}\n{}goal: {}", m, low.text, lg.text)),
+                        _ => out.bump("re_enumeration_outside_limits(not judged)"),
+                    }
+                }
                 out.bump(&format!("stream_len:{}", match items.len() { 0 => "0", 1 => "1", 2..=4 => "2-4", 5..=39 => "5-39", _ => "cap" }));
                 let ctx = |msg: &str| format!("{}\n{}goal: {}\nstream: {:?}\nreturned: {}", msg, low.text, lg.text, items.iter().map(|i| (i.3.clone(), i.2)).collect::<Vec<_>>(), finished);
                 // duplicates (Floundered excluded)
